@@ -61,7 +61,7 @@ type Case struct {
 
 func genCase(t *rapid.T) Case {
 	var c Case
-	c.Queue = rapid.SampledFrom([]int{1, 2, 3, 5, 8, 16}).Draw(t, "queue")
+	c.Queue = rapid.SampledFrom([]int{3, 4, 5, 8, 16, 32}).Draw(t, "queue")
 	c.Merge = rapid.SampledFrom([]int{0, 0, 300}).Draw(t, "merge")
 	o := gen.StreamOpts{Video: []string{"avc", "avc", "hevc"}, Audio: []string{"aac", "aac", "g711a", ""}, MaxGops: 3, MaxGopLen: 4, MaxNalLen: 1200, MultiNal: true}
 	c.Codecs, c.Items = gen.GenStream(t, o)
@@ -117,7 +117,7 @@ func run(c Case) *pbt.Violation {
 	prevFlvT, prevTsT := httpflv.SubSessionWriteTimeoutMs, httpts.SubSessionWriteTimeoutMs
 	prevInt := base.LogicCheckSessionAliveIntervalSec
 	httpflv.SubSessionWriteChanSize, httpts.SubSessionWriteChanSize = c.Queue, c.Queue
-	httpflv.SubSessionWriteTimeoutMs, httpts.SubSessionWriteTimeoutMs = 400, 400
+	httpflv.SubSessionWriteTimeoutMs, httpts.SubSessionWriteTimeoutMs = 150, 150
 	defer func() {
 		rtmp.VerifSetWriteChanSize(prevRtmp)
 		rtsp.VerifSetCommandSessionWriteChanSize(prevRtsp)
@@ -154,6 +154,12 @@ func run(c Case) *pbt.Violation {
 	}
 	for i := 0; i < 17; i++ { // tail pad (TS probe queue / RTSP analysis)
 		items = append(items, gen.Item{Kind: "video", Ts: lastTs + 501 + uint32(i), Nals: []gen.NalSpec{{Hdr: nHdr, Len: 12, Seed: uint32(99900 + i), Serial: uint32(99900 + i)}}})
+	}
+	// two more frames, published between the two liveness sweeps (if any) so that healthy consumers stay write-alive
+	sweepExtraFrom := len(items)
+	for i := 0; i < 3; i++ {
+		// the last one is only filler that pushes its predecessors through the merge-write buffer
+		items = append(items, gen.Item{Kind: "video", Ts: lastTs + 600 + uint32(i), Nals: []gen.NalSpec{{Hdr: nHdr, Len: 30 + (i/2)*(c.Merge+64), Seed: uint32(99800 + i), Serial: uint32(99800 + i)}}})
 	}
 	var P []lalclient.Rec
 	for _, it := range items {
@@ -210,6 +216,16 @@ func run(c Case) *pbt.Violation {
 	var cons []*attached
 	for i, k := range c.Cons {
 		a := &attached{spec: k}
+		// the write queue size is read when a session is set up: small for the consumers that will stall (so that
+		// queue-full occurs within a few messages), lal's default for the healthy ones (a tiny queue would make a
+		// healthy consumer lose units in bursts although its transport is fine, which is not what S2 is about)
+		q := 1024
+		if k.Stall {
+			q = c.Queue
+		}
+		rtmp.VerifSetWriteChanSize(q)
+		rtsp.VerifSetCommandSessionWriteChanSize(q)
+		httpflv.SubSessionWriteChanSize, httpts.SubSessionWriteChanSize = q, q
 		switch k.Kind {
 		case "rtmp":
 			a.rc = lalclient.NewRtmpSub(s, "live", stream)
@@ -224,6 +240,9 @@ func run(c Case) *pbt.Violation {
 			a.ts = lalclient.NewTsSub(s, "live", stream)
 			a.conn = a.ts.Conn
 		case "rtsp":
+			if !(c.Codecs.Video != "" && c.Codecs.Audio == "aac") && next-pro < 17 {
+				continue // lal has no SDP yet (it analyses up to 16 messages of a single-track stream): nothing to subscribe to
+			}
 			rs, err := newRtspSub(s)
 			if err != nil {
 				if v := s.PanicViolation(); v != nil {
@@ -262,7 +281,7 @@ func run(c Case) *pbt.Violation {
 		}
 	}
 	// stall phase: more messages than any queue holds; the publisher must not be blocked (S1)
-	for k := stallFrom; k < len(items); k++ {
+	for k := stallFrom; k < sweepExtraFrom; k++ {
 		if v := send(k); v != nil {
 			return v
 		}
@@ -291,6 +310,10 @@ func run(c Case) *pbt.Violation {
 	// how the stalls end
 	base.LogicCheckSessionAliveIntervalSec = 1
 	swept := false
+	// lal's own per-session byte accounting between the two sweeps (an RTSP session counts a packet as written when
+	// it is queued, so a stalled RTSP consumer only looks dead to the sweep once its queue is full)
+	wroteAtTick1 := map[string]uint64{}
+	nothingWritten := map[string]bool{}
 	for i, a := range cons {
 		if !a.spec.Stall {
 			continue
@@ -299,10 +322,10 @@ func run(c Case) *pbt.Violation {
 		case "resume":
 			a.conn.SetRecvWindow(-1)
 		case "write-timeout":
-			// 400 ms write deadline on HTTP sessions: the blocked write fails, the session is disposed
+			// 150 ms write deadline on HTTP sessions: the blocked write fails, the session is disposed
 			if !waitClosed(a, 15*time.Second) {
 				if stuck, stack := pbt.StuckGoroutine("connection.(*connection).runWriteLoop", time.Second); stuck {
-					return pbt.V("S4/not-disconnected-by-write-timeout/"+a.spec.Kind, "stalled consumer %d (%s) is still connected 15 s after its 400 ms write timeout; writer:\n%s", i, a.spec.Kind, stack)
+					return pbt.V("S4/not-disconnected-by-write-timeout/"+a.spec.Kind, "stalled consumer %d (%s) is still connected 15 s after its 150 ms write timeout; writer:\n%s", i, a.spec.Kind, stack)
 				}
 				lalclient.Harness("stalled consumer not closed and writer not parked")
 			}
@@ -314,8 +337,40 @@ func run(c Case) *pbt.Violation {
 				}
 				// two sweeps with no bytes written in between
 				s.Call("Tick", func() { g.Tick(1) })
+				for _, ss := range s.SM.StatGroup(stream).StatSubs {
+					wroteAtTick1[ss.RemoteAddr] = ss.WroteBytesSum
+				}
+				// data keeps flowing between the sweeps: healthy consumers are written to, stalled ones are not
+				for k := sweepExtraFrom; k < len(items); k++ {
+					if v := send(k); v != nil {
+						return v
+					}
+				}
+				p.WaitIdle()
+				lastKey := recKey(P[len(P)-2])
+				for hi, h := range cons {
+					if !h.spec.Stall && h.rc != nil {
+						if h.rc.WaitFor(func(r lalclient.Rec) bool { return recKey(r) == lastKey }, lalclient.DeliverTimeout) < 0 {
+							return pbt.V("S2/healthy-consumer-starved/"+h.spec.Kind, "healthy consumer %d did not receive the frames published between the two sweeps", hi)
+						}
+					}
+				}
+				time.Sleep(2 * time.Millisecond) // lal's writer goroutines update the byte counters after the write returns
+				for _, ss := range s.SM.StatGroup(stream).StatSubs {
+					if w, ok := wroteAtTick1[ss.RemoteAddr]; ok && w == ss.WroteBytesSum {
+						nothingWritten[ss.RemoteAddr] = true
+					}
+				}
 				s.Call("Tick", func() { g.Tick(2) })
 				swept = true
+				for hi, h := range cons {
+					if !h.spec.Stall && h.rc != nil {
+						time.Sleep(time.Millisecond)
+						if h.rc.Ended() {
+							return pbt.V("S4/healthy-consumer-swept/"+h.spec.Kind, "healthy consumer %d (%s) was disconnected by the liveness sweep although data was written to it between the two sweeps", hi, h.spec.Kind)
+						}
+					}
+				}
 			}
 		}
 	}
@@ -329,6 +384,10 @@ func run(c Case) *pbt.Violation {
 		switch a.spec.End {
 		case "sweep":
 			a.conn.SetRecvWindow(-1) // let the client see the close
+			if !nothingWritten[a.conn.LocalAddr().String()] {
+				pbt.Count("sweep-not-judged-bytes-were-accounted", 1)
+				continue
+			}
 			if !waitClosed(a, lalclient.DeliverTimeout) {
 				return pbt.V("S4/not-disconnected-by-sweep/"+a.spec.Kind, "stalled consumer %d (%s, stalled at %d) is still connected after two liveness sweeps during which nothing could be written to it", i, a.spec.Kind, a.spec.StallAt)
 			}
